@@ -68,6 +68,7 @@ pub fn run_generated_epilogue(profile: Profile, rng: &mut Rng, seed: u64, max_st
     log.epilogue = true;
     log.hostile = hostile;
     log.epilogue_from = d.from_step;
+    log.epilogue_polls_max = max_polls;
     (log, world)
 }
 
@@ -154,6 +155,8 @@ pub struct SweepCheck {
     pub monitor: MonitorFn,
     pub max_steps: usize,
     pub epilogue_polls: usize,
+    /// the benign continuation ends with a subscribe / publish / inbound publish round trip
+    pub round_trip: bool,
     /// maximum number of injection points per base program (quick, thorough)
     pub cap: (usize, usize),
     pub mode: SweepMode,
@@ -191,9 +194,11 @@ impl SweepCheck {
         g.forced_cancel = fc;
         if self.epilogue_polls > 0 {
             let mut d = WithEpilogue::new(g, self.epilogue_polls);
-            let (mut log, world) = run_case(&cfg, seed, &mut d, self.max_steps + self.epilogue_polls + 16);
+            d.round_trip = self.round_trip;
+            let (mut log, world) = run_case(&cfg, seed, &mut d, self.max_steps + self.epilogue_polls + 32);
             log.epilogue = true;
             log.epilogue_from = d.from_step;
+            log.epilogue_polls_max = self.epilogue_polls;
             log.hostile = hostile;
             (log, world)
         } else {
@@ -573,6 +578,23 @@ fn inbound_hostile(r: &mut Rng) -> Profile {
     p
 }
 
+fn tiny_arena(r: &mut Rng) -> Profile {
+    let mut p = replay_heavy(r);
+    p.name = "tiny-arena";
+    p.tx_choices = vec![48, 56, 64, 80, 96, 128];
+    p.rx_choices = vec![32, 64, 128];
+    p.payload_max = 40;
+    p.topic_max = 6;
+    p.will_pct = 0;
+    p.auth_pct = 0;
+    p.ack_modes = vec![AckMode::Hold, AckMode::Never];
+    p.w_pub = [1, 16, 12];
+    p.w_sub = 6;
+    p.props_pct = 5;
+    p.assigned_id_pct = 0;
+    p
+}
+
 fn dead_handle(r: &mut Rng) -> Profile {
     let mut p = Profile::default();
     p.name = "dead-handle";
@@ -730,10 +752,41 @@ pub fn all() -> Vec<Box<dyn Check>> {
         monitor: m::c11::check,
         max_steps: 40,
         epilogue_polls: 0,
+        round_trip: false,
         cap: (40, 400),
         mode: SweepMode::Faults,
         min_nt: (200, 2000),
         required: vec!["latches_observed", "ops_after_latch", "probes_after_latch"],
+    }),
+    Box::new(SweepCheck {
+        id: "C12",
+        level: "fault_enumeration",
+        rule: "generated prior histories (rejected / garbled / EOF / silent / cancelled handshakes, transport failures, broker DISCONNECT, handle dropped / forgotten / into_inner, malformed broker data, arenas from 48 bytes up with up to 8 retained packets) are re-executed with a transport fault at every I/O call index and with a cancellation at every await index of every operation; each ends with connect() over a healthy whole-buffer transport to the conformant reference broker, which must succeed, start with one complete CONNECT, carry nothing over, and then complete a subscribe + QoS 1 publish + inbound QoS 1 publish round trip. Non-trivial iff the prior history ended in a failure/cancellation or left in-flight state; configurations whose empty arena cannot hold a CONNECT are excluded.",
+        assumptions: COMMON_ASSUME.to_vec(),
+        workloads: vec![("session-mix", 150, 15_000, session_mix as ProfileFn), ("tiny-arena", 150, 15_000, tiny_arena), ("general", 100, 10_000, general)],
+        monitor: m::c12::check,
+        max_steps: 30,
+        epilogue_polls: 60,
+        round_trip: true,
+        cap: (40, 300),
+        mode: SweepMode::Both,
+        min_nt: (200, 2000),
+        required: vec!["reconnects_judged", "reconnects_with_inflight_state", "round_trips_completed"],
+    }),
+    Box::new(SweepCheck {
+        id: "C16",
+        level: "fault_enumeration",
+        rule: "liveness restated as bounded progress: the end state of every explored history (random programs re-executed with a transport fault at every I/O call index and a cancellation at every await index; saturated queues, crashes in the middle of a replay) is continued benignly (reconnect with the session present if the client asks for it, whole-buffer transport, broker acknowledging everything at once, no restrictive limits) and poll() is called until the client goes idle; it must do so within N = 208 + 8 x inbound backlog calls, be publish-quiescent with every non-invalidated handle complete and no owed control packet left, never exceed the per-call watchdog budget (4096 transport calls), and poll() may return Ok(None) only after a byte moved or a flush completed. Non-trivial iff the continuation started with queued entries or after a failed operation; distinct keys = end-state shapes (retained/release/control/inbound-QoS2 counts).",
+        assumptions: COMMON_ASSUME.to_vec(),
+        workloads: vec![("replay-heavy", 150, 15_000, replay_heavy as ProfileFn), ("inbound-heavy", 100, 10_000, inbound_heavy), ("general", 100, 10_000, general)],
+        monitor: m::c16::check,
+        max_steps: 40,
+        epilogue_polls: 260,
+        round_trip: false,
+        cap: (40, 300),
+        mode: SweepMode::Both,
+        min_nt: (200, 2000),
+        required: vec!["continuations_judged", "quiescent_in_the_end"],
     }),
     Box::new(crate::twins::C13),
     Box::new(crate::twins::C15),
